@@ -731,9 +731,10 @@ def andxOk (andx : Bool) (env : Env) : Bool :=
 
 /-- C04 "internally consistent": a condition on the field *values* (they fit their slots, lengths and counts agree with
     their buffers, nested values are in their domain, the blocks fit their count fields).  Where Marshal puts the
-    bytes is not among them: a program that writes a field ahead of the parameter block (`MState.head`) is judged on
-    the same assignments as any other — the fragment predicates exclude it, the round-trip oracle exhibits it
-    (`knownRtKind`: `field-ahead-of-blocks`). -/
+    bytes is not among them: a program that writes a field ahead of the parameter block (`MState.head`, `subHead`) is
+    judged on the same assignments as any other — the fragment predicates exclude it and the round-trip oracle exhibits
+    it (WriteRequest did so until fixes/C04-writerequest-data-block.diff; while `consistent` asked `head` to be empty the
+    oracle was silent on that command and the defect stayed hidden). -/
 def consistent (C : Codecs) (c : Cmd) (env : Env) : Bool :=
   andxOk c.isAndX env &&
   match runM C c env with
@@ -746,8 +747,7 @@ def consistent (C : Codecs) (c : Cmd) (env : Env) : Bool :=
 /-! known C04 findings, decided on the extracted programs (not on the failing input):
     `andx-not-consumed`: an AndX command whose Unmarshal does not consume the two AndX words its Marshal
     put first (no instance on this tree since fixes/C04-andx-consumed.diff; kept so that a command losing
-    the stanza is named for what it is); `field-ahead-of-blocks`: a field marshalled into the command bytes ahead of
-    the parameter block instead of into one of the two blocks; `field-not-marshalled`: a declared field no marshal
+    the stanza is named for what it is); `field-not-marshalled`: a declared field no marshal
     statement emits; … -/
 mutual
 def emittedStmt : MStmt → List String
@@ -788,12 +788,11 @@ def resetBeforeTest : List UStmt → List String
   | _ :: r => resetBeforeTest r
 
 inductive RtFinding
-  | andxNotConsumed | fieldAheadOfBlocks | fieldNotMarshalled | fieldNotUnmarshalled | readsWholeBuffer | conditionalField | fixedEntrySize
+  | andxNotConsumed | fieldNotMarshalled | fieldNotUnmarshalled | readsWholeBuffer | conditionalField | fixedEntrySize
   deriving DecidableEq, Repr, Inhabited
 
 def RtFinding.key : RtFinding → String
   | .andxNotConsumed => "andx-not-consumed"
-  | .fieldAheadOfBlocks => "field-ahead-of-blocks"
   | .fieldNotMarshalled => "field-not-marshalled"
   | .fieldNotUnmarshalled => "field-not-unmarshalled"
   | .readsWholeBuffer => "reads-whole-buffer"
@@ -804,9 +803,6 @@ def knownRtKind (c : Cmd) : Option RtFinding :=
   let em := emittedDeep c.marshal
   let rd := readDeep c.unmarshal
   if c.isAndX && (splitAndX c.unmarshal).isNone then some .andxNotConsumed
-  -- a marshalled field appended to the command bytes themselves, ahead of the parameter block, while Unmarshal looks
-  -- for it in the data block: the receiver takes the field's first byte for the word count (WriteRequest)
-  else if c.marshal.any (fun s => match s with | .subHead .. => true | _ => false) then some .fieldAheadOfBlocks
   else if (c.fields.map (·.1)).any (fun f => !em.contains f) then some .fieldNotMarshalled
   else if em.any (fun f => !rd.contains f) then some .fieldNotUnmarshalled
   -- two or more nested values each decoded from the start of the block instead of from `offset`
